@@ -40,6 +40,9 @@ CONFIG = _Cfg()
 '''
 
 
+BATCH_SEED = None
+
+
 def run_one(workdir, idx, rnd, ct):
     import monkeytype
     from monkeytype import cli
@@ -75,7 +78,7 @@ def run_one(workdir, idx, rnd, ct):
     rc = cli.main(["-v", "-c", f"{cfgname}:CONFIG"] + [f for f in flags if f == "--disable-type-rewriting"]
                   + ["stub", name] + [f for f in flags if f != "--disable-type-rewriting"], out, err)
     stub = out.getvalue()
-    stats = {"k": k, "rewriter": rewriter, "flags": flags, "rc": rc, "crashed": crashed, "stderr": err.getvalue()[:1200],
+    stats = {"path": path, "batch_seed": BATCH_SEED, "index": idx, "k": k, "rewriter": rewriter, "flags": flags, "rc": rc, "crashed": crashed, "stderr": err.getvalue()[:1200],
              "observations": len(vrec.R.obs)}
     if rc != 0 or not stub.strip():
         return {"term": None, "stats": stats, "stub": stub, "prog": name, "error": f"stub command failed rc={rc}: {err.getvalue()[-300:]}"}
@@ -83,7 +86,19 @@ def run_one(workdir, idx, rnd, ct):
     try:
         se = StubEval(stub, own, ct)
     except SyntaxError as e:
-        return {"term": None, "stats": stats, "stub": stub, "prog": name, "error": f"stub is not valid Python: {e}"}
+        import re
+        # a generated TypedDict class whose field name is not an identifier (dict keys "", "x y", "1a"): part of the
+        # recorded TypedDict-rendering finding when max_typed_dict_size > 0
+        in_td, bad_field = False, False
+        for line in stub.splitlines():
+            if line.startswith("class ") and "TypedDict" in line:
+                in_td = True
+            elif line and not line.startswith(" "):
+                in_td = False
+            elif in_td and line.startswith("    ") and not re.match(r"^    [A-Za-z_][A-Za-z_0-9]*: ", line):
+                bad_field = True
+        return {"term": None, "stats": stats, "stub": stub, "prog": name, "error": f"stub is not valid Python: {e}",
+                "finding": "kf_typeddict_rendering" if (k > 0 and bad_field) else None}
     funcs = se.functions()
     # observations by (qualname, kind, name)
     obs = {}
@@ -137,7 +152,9 @@ def run_one(workdir, idx, rnd, ct):
 
 
 def main():
+    global BATCH_SEED
     workdir, seed, n = sys.argv[1], int(sys.argv[2]), int(sys.argv[3])
+    BATCH_SEED = seed
     os.makedirs(workdir, exist_ok=True)
     with open(os.path.join(workdir, "vrec.py"), "w") as f:
         f.write(HELPER_SRC)
